@@ -301,6 +301,9 @@ func workOf(hs []wire.BlockHeader) *big.Int {
 func (h *c01h) key(chain []wire.BlockHeader) string {
 	var b strings.Builder
 	b.WriteString(h.chainLabels(chain))
+	// the fault budget that is left is part of the state (a history that
+	// has used its one failing write has other futures)
+	fmt.Fprintf(&b, "|faults:%d", len(h.env.Deviated))
 	b.WriteString("|list:")
 	for n := h.bm.headerList.Back(); n != nil; n = n.Prev() {
 		fmt.Fprintf(&b, "%s@%d,", h.f.label(n.Header.BlockHash()), n.Height)
@@ -356,7 +359,7 @@ func c01Body(t *testing.T, cfg c01cfg, depth, npeers int) func(c *verifeng.Choos
 		out := verifbubble.Run(t, func() {
 			env = verifhfs.NewEnv(c)
 			env.Quiet = true
-			env.MemFiles = true
+			env.MemFiles = !c01Faults
 			c01Run(c, f, env, depth, npeers)
 		})
 		if env != nil {
@@ -366,6 +369,12 @@ func c01Body(t *testing.T, cfg c01cfg, depth, npeers int) func(c *verifeng.Choos
 		case out.Panic != nil:
 			if ie, ok := out.Panic.(verifeng.InfraError); ok {
 				panic(ie)
+			}
+			if c01Faults && strings.HasPrefix(fmt.Sprint(out.Panic), "Rollback failed:") {
+				// the client gives up (panics) when a roll back
+				// fails: the process dies, recovery is C08's subject
+				c.Obs("the client panicked after a failed roll back")
+				return
 			}
 			c.Fail("panic", "panic:"+firstWords(fmt.Sprint(out.Panic)), "%v", out.Panic)
 		case out.Deadlock != "":
@@ -474,6 +483,7 @@ func c01Run(c *verifeng.Chooser, f *c01fix, env *verifhfs.Env, depth, npeers int
 		synced := h.bm.BlockHeadersSynced()
 		wasSync := p.sp != nil && h.bm.SyncPeer() == p.sp
 		listTip := h.bm.headerList.Back().Header.BlockHash()
+		faulted := false
 		switch ev.kind {
 		case "new":
 			sp, r, err := vfxNewPeer(srv, f.params, fmt.Sprintf("10.0.0.%d:18444", ev.peer+1),
@@ -499,7 +509,18 @@ func c01Run(c *verifeng.Chooser, f *c01fix, env *verifhfs.Env, depth, npeers int
 				hd := n.Hdr
 				msg.Headers = append(msg.Headers, &hd)
 			}
+			devBefore := len(env.Deviated)
+			if c01Faults {
+				// one store write of this message may fail (DESIGN 5.1,
+				// sixth session): every durable step is a choice point
+				env.Quiet, env.Faults = false, true
+				env.BeginOp()
+			}
 			h.bm.handleHeadersMsg(&headersMsg{headers: msg, peer: p.sp})
+			if c01Faults {
+				env.Quiet, env.Faults = true, false
+				faulted = len(env.Deviated) > devBefore
+			}
 		case "inv":
 			inv := wire.NewMsgInv()
 			inv.AddInvVect(wire.NewInvVect(wire.InvTypeBlock, &ev.inv.Hash))
@@ -513,7 +534,11 @@ func c01Run(c *verifeng.Chooser, f *c01fix, env *verifhfs.Env, depth, npeers int
 				kicked += q.name
 			}
 		}
-		c.Step("%s", ev.name)
+		if faulted {
+			c.Step("%s [a store write failed: %s]", ev.name, env.Deviated[len(env.Deviated)-1])
+		} else {
+			c.Step("%s", ev.name)
+		}
 
 		// ---- C01
 		oracle := os.Getenv("VFX_ORACLE")
@@ -538,7 +563,10 @@ func c01Run(c *verifeng.Chooser, f *c01fix, env *verifhfs.Env, depth, npeers int
 			return
 		}
 		// ---- C02
-		if oracle != "C01" && h.checkC02(ev, p, before, after, synced, wasSync, listTip) {
+		// (a message during which a store write failed is not held to the
+		// transition rules: what it leaves must be a valid chain, and the
+		// messages after it are judged as usual)
+		if oracle != "C01" && !faulted && h.checkC02(ev, p, before, after, synced, wasSync, listTip) {
 			return
 		}
 		for _, cp := range f.params.Checkpoints {
@@ -702,6 +730,10 @@ func c01Configs(tier string) []c01cfg {
 	return cfgs
 }
 
+// c01Faults selects the configuration in which one store write per history
+// may fail while a headers message is handled.
+var c01Faults bool
+
 func runC01(t *testing.T, harness string) {
 	tier := verifeng.Tier()
 	depth, npeers := 5, 2
@@ -715,6 +747,7 @@ func runC01(t *testing.T, harness string) {
 		}
 		var name string
 		fmt.Sscanf(v.Config, "cfg=%s depth=%d peers=%d", &name, &depth, &npeers)
+		c01Faults = strings.Contains(v.Config, "store write fails")
 		for _, cf := range c01Configs("thorough") {
 			if cf.name == name {
 				e := verifeng.FromEnv(v.Harness, v.Config)
@@ -737,6 +770,28 @@ func runC01(t *testing.T, harness string) {
 		e.ShardDepth = 2
 		e.MaxViol = 12
 		e.Run(c01Body(t, cf, depth, npeers))
+		if err := verifeng.AppendResult(&e.Res); err != nil {
+			t.Fatal(err)
+		}
+	}
+	// one failing store write per history, shallower
+	for _, cf := range c01Configs(tier) {
+		if cf.name != "plain" && cf.name != "checkpoints2,4" {
+			continue
+		}
+		c01Faults = true
+		fd := depth - 2
+		if cf.name != "plain" {
+			// a checkpoint batch whose write fails, and what follows
+			fd = depth - 1
+		}
+		e := verifeng.FromEnv(harness, fmt.Sprintf("cfg=%s depth=%d peers=%d batches=%d one store write fails", cf.name, fd, npeers, len(getC01Fixture(cf).batches)))
+		e.Dedupe = true
+		e.ShardDepth = 2
+		e.MaxViol = 12
+		e.MaxDev = 1
+		e.Run(c01Body(t, cf, fd, npeers))
+		c01Faults = false
 		if err := verifeng.AppendResult(&e.Res); err != nil {
 			t.Fatal(err)
 		}
